@@ -17,6 +17,7 @@ type CaseC13 struct {
 	E     int64
 	Off   int64
 	OutV  int64
+	Reuse int64 `json:",omitempty"` // != 0: tiles are re-used TileXYZ objects filled through their setters
 }
 
 func genC13(t *rapid.T) *CaseC13 {
@@ -90,6 +91,7 @@ func genC13(t *rapid.T) *CaseC13 {
 			c.Off = 0
 		}
 	}
+	c.Reuse = genReuse(t)
 	return c
 }
 
@@ -200,10 +202,17 @@ func checkC13(c *CaseC13, fl *Fails) {
 	}
 	var tiles []*object.TileXYZ
 	for _, tl := range c.Tiles {
-		o, err := object.NewTileXYZ(tl.H, tl.X, tl.Y, tl.V, tl.Z)
+		reuse := c.Reuse
+		if reuse != 0 {
+			reuse += int64(len(tiles)) * 7919
+		}
+		o, err := mkTile(reuse, tl.H, tl.X, tl.Y, tl.V, tl.Z)
 		if err != nil {
 			fl.Add("error", "NewTileXYZ(%+v): %v", tl, err)
 			return
+		}
+		if o.HZoom() != tl.H || o.X() != tl.X || o.Y() != tl.Y || o.VZoom() != tl.V || o.Z() != tl.Z {
+			fl.Add("object-setters", "TileXYZ for %+v reports %d/%d/%d/%d/%d (reuse %d)", tl, o.HZoom(), o.X(), o.Y(), o.VZoom(), o.Z(), reuse)
 		}
 		tiles = append(tiles, o)
 	}
